@@ -36,3 +36,23 @@
 
 void h_nng_sendmsg(void) { nng_socket s; nng_msg *m; int flags; VP_HAVOC_GHOSTS(); nng_sendmsg(s, m, flags); VP_CANARY(); }
 void h_nng_recvmsg(void) { nng_socket s; nng_msg **mp; int flags; VP_HAVOC_GHOSTS(); nng_recvmsg(s, mp, flags); VP_CANARY(); }
+void h_sock_send(void) { nni_sock *s; nni_aio *a; VP_HAVOC_GHOSTS(); nni_sock_send(s, a); VP_CANARY(); }
+void h_sock_recv(void) { nni_sock *s; nni_aio *a; VP_HAVOC_GHOSTS(); nni_sock_recv(s, a); VP_CANARY(); }
+void h_ctx_send(void) { nni_ctx *c; nni_aio *a; VP_HAVOC_GHOSTS(); nni_ctx_send(c, a); VP_CANARY(); }
+void h_ctx_recv(void) { nni_ctx *c; nni_aio *a; VP_HAVOC_GHOSTS(); nni_ctx_recv(c, a); VP_CANARY(); }
+void h_sock_find(void) { nni_sock **sp; uint32_t id; VP_HAVOC_GHOSTS(); nni_sock_find(sp, id); VP_CANARY(); }
+void h_sock_rele(void) { nni_sock *s; VP_HAVOC_GHOSTS(); nni_sock_rele(s); VP_CANARY(); }
+void h_ctx_find(void) { nni_ctx **cp; uint32_t id; VP_HAVOC_GHOSTS(); nni_ctx_find(cp, id); VP_CANARY(); }
+void h_ctx_rele(void) { nni_ctx *c; VP_HAVOC_GHOSTS(); nni_ctx_rele(c); VP_CANARY(); }
+void h_nng_socket_send(void) { nng_socket s; nng_aio *a; VP_HAVOC_GHOSTS(); nng_socket_send(s, a); VP_CANARY(); }
+void h_nng_socket_recv(void) { nng_socket s; nng_aio *a; VP_HAVOC_GHOSTS(); nng_socket_recv(s, a); VP_CANARY(); }
+void h_nng_ctx_send(void) { nng_ctx c; nng_aio *a; VP_HAVOC_GHOSTS(); nng_ctx_send(c, a); VP_CANARY(); }
+void h_nng_ctx_recv(void) { nng_ctx c; nng_aio *a; VP_HAVOC_GHOSTS(); nng_ctx_recv(c, a); VP_CANARY(); }
+void h_nng_aio_set_timeout(void) { nng_aio *a; nni_duration d; VP_HAVOC_GHOSTS(); nng_aio_set_timeout(a, d); VP_CANARY(); }
+void h_nng_aio_set_expire(void) { nng_aio *a; nng_time t; VP_HAVOC_GHOSTS(); nng_aio_set_expire(a, t); VP_CANARY(); }
+void h_nng_ctx_sendmsg(void) { nng_ctx c; nng_msg *m; int flags; VP_HAVOC_GHOSTS(); nng_ctx_sendmsg(c, m, flags); VP_CANARY(); }
+void h_nng_ctx_recvmsg(void) { nng_ctx c; nng_msg **mp; int flags; VP_HAVOC_GHOSTS(); nng_ctx_recvmsg(c, mp, flags); VP_CANARY(); }
+void h_nng_send(void) { nng_socket s; const void *b; size_t n; int flags; VP_HAVOC_GHOSTS(); nng_send(s, b, n, flags); VP_CANARY(); }
+void h_nng_recv(void) { nng_socket s; void *b; size_t *np; int flags; VP_HAVOC_GHOSTS(); nng_recv(s, b, np, flags); VP_CANARY(); }
+void h_aio_init(void) { nni_aio *a; nni_cb cb; void *arg; VP_HAVOC_GHOSTS(); nni_aio_init(a, cb, arg); VP_CANARY(); }
+void h_aio_fini_done(void) { nni_aio *a; VP_HAVOC_GHOSTS(); nni_aio_fini(a); VP_CANARY(); }
